@@ -25,6 +25,9 @@ def run(prog, world, sem, rep):
              "token and the result stored into that token's withdraw rate", 2)
     rep.rule("C01.i", "every claim of the caller is examined: the loop over the caller's wait-list entries in the payable function leaves only when "
              "the entries are exhausted (or on an error), never early", 1)
+    rep.rule("C01.j", "rounding against the claimants in the withdraw-rate computation: whenever the group lost coins (loss != 0) the share of the loss "
+             "subtracted from a batch is floor(weight x loss) + 1; a surplus is only ever credited as (floor(weight x surplus) - 1) or 0 - so the "
+             "claims of the batches released together never add up to more than what arrived", 2)
     rep.rule("C01.h", "arrived coins: the amount distributed over the released batches is (hub balance passed by the handler) - "
              "State.prev_hub_balance; a negative difference is an error before anything is released", 2)
 
@@ -42,14 +45,15 @@ def run(prog, world, sem, rep):
     paid = world.ident(amt, expand_ws=False) if amt is not None else None
     # the payable function: paid = f(..)!ok.0
     pay_call = None
-    if paid is not None and paid.op == "field" and paid.info[0] == "0":
+    if paid is not None and paid.op == "field":
+        # component 0 of an (amount, ids) tuple, or a named field of a small result struct
         c = paid.args[0]
         if c.op == "proj":
             c = c.args[0]
         if c.op == "call" and world.callee_body(c) is not None:
             pay_call = c
     if pay_call is None:
-        rep.ob("C01.a", "payable function", False, "anchor-lost: the amount sent is not component 0 of a workspace function's result: %s" % (show(paid, 4) if paid else None), where(mv.body, mbb))
+        rep.ob("C01.a", "payable function", False, "anchor-lost: the amount sent is not a component of a workspace function's result: %s" % (show(paid, 4) if paid else None), where(mv.body, mbb))
         return
     pv = [v for v in vs if v.body.path == pay_call.info and v.parent is not None and v.parent[0] is h]
     pv = pv[0]
@@ -88,11 +92,17 @@ def run(prog, world, sem, rep):
     ret = world.ret_expr(pv.body)
     oks = world._ok_alts(ret, "ok", 0, False)
     tup = [world.ident(x, expand_ws=False) for x in oks]
-    tup = [t for t in tup if t.op == "tuple" and len(t.args) == 2]
+    tup = [t for t in tup if (t.op == "tuple" or (t.op == "adt" and not t.info[1])) and len(t.args) == 2]
     if len(tup) != 1:
-        rep.ob("C01.a", "payable result", False, "anchor-lost: result of %s is not one (amount, ids) tuple" % pv.body.path, where(pv.body))
+        rep.ob("C01.a", "payable result", False, "anchor-lost: result of %s is not one (amount, ids) pair" % pv.body.path, where(pv.body))
         return
-    total, ids = tup[0].args
+    names = [str(i) for i in range(2)] if tup[0].op == "tuple" else list(tup[0].info[2])
+    if paid.info[0] not in names:
+        rep.ob("C01.a", "payable result", False, "anchor-lost: the amount paid (%s) is not a component of the result of %s" % (paid.info[0], pv.body.path), where(pv.body))
+        return
+    ti = names.index(paid.info[0])
+    total, ids = tup[0].args[ti], tup[0].args[1 - ti]
+    ids_field = names[1 - ti]
     adds = [a for a in find(total, lambda y: y.op == "bin" and y.info == "Add" and y.site and y.site[0] == pv.body.path and any(z.op == "rec" for z in y.args))]
     pushes = [a for a in find(ids, lambda y: y.op == "out" and y.info[0].endswith("Vec::push") and y.site and y.site[0] == pv.body.path)]
     if len(adds) != 1 or len(pushes) != 1:
@@ -198,11 +208,10 @@ def run(prog, world, sem, rep):
         rep.ob("C01.b", "remover call", False, "expected exactly one call of the wait-list remover in the handler, found %d" % len(rc), where(h.body))
     else:
         rv, rbb, re_ = rc[0]
-        ids_arg = [a for a in re_.args if world.ident(a, expand_ws=False) == world.ident(h.resolve(E_field(pay_call, "1")), expand_ws=False)]
         idl = None
         for a in re_.args:
             ai = world.ident(a, expand_ws=False)
-            if ai.op == "field" and ai.info[0] == "1":
+            if ai.op == "field" and ai.info[0] == ids_field:
                 b = ai.args[0]
                 if b.op == "proj":
                     b = b.args[0]
@@ -239,7 +248,7 @@ def run(prog, world, sem, rep):
                 lab_ok = False
                 for it in from_list:
                     ps = find(it, lambda y: y.op == "param")
-                    lab_ok = lab_ok or any("Vec<u64" in p.info[3] for p in ps)
+                    lab_ok = lab_ok or any("Vec<u64" in p.info[3] or "[u64]" in p.info[3] for p in ps)
                 # unconditional in the loop body: from the Some edge of the iterator every path passes the remove
                 heads = []
                 for blk in v.body.blocks:
@@ -346,6 +355,8 @@ def run(prog, world, sem, rep):
                 ok = c1 and c2 and c3 and c4
                 det = "amount:%s rate:%s total-component:%s slashed-from-same-total:%s" % (c1, c2, c3, c4)
             rep.ob("C01.g", "%s withdraw-rate arguments are all %s" % (tk, tk), ok, det, where(lv.body, wb))
+            if r is not None and r.op == "call" and world.callee_body(r) is not None and len(r.args) == 4:
+                rounding_rule(prog, world, sem, rep, world.callee_body(r), tk)
         # C01.h
         fs = [e for (_, _, e) in call_sites(sem, [lv], lambda k: k.endswith("SignedInt::from_subtraction"))]
         arr = None
@@ -364,6 +375,92 @@ def run(prog, world, sem, rep):
             rep.ob("C01.h", "negative balance change is an error before anything is released", g, d3, where(lv.body, wb))
     else:
         rep.ob("C01.g", "withdraw-rate computation", False, "anchor-lost: summing / releasing loops not identified")
+
+
+def rounding_rule(prog, world, sem, rep, rb, tk):
+    """C01.j on the withdraw-rate function rb(amount, previous rate, group total, (difference, is_surplus))"""
+    memo = rep.__dict__.setdefault("_c01j_done", set())
+    from .C03 import through_pure
+    be = world.be(rb)
+    one = ("const", "lib", "Uint256::one")
+
+    def is_one(x):
+        x = world.ident(x, expand_ws=False)
+        return sem.label(x) == one or (x.op == "call" and x.info.endswith("::one")) or (x.op == "const" and x.info[0] == "scalar" and x.info[1] == 1)
+
+    def alts(x, depth=0):
+        x = through_pure(world, x)
+        if x.op == "phi" and depth < 6:
+            return [y for a in x.args for y in alts(a, depth + 1)]
+        return [x]
+    # the loss parameter: component 0 of the 4th parameter; edges on which it was observed zero
+    def loss_zero(f):
+        if f[0] == "cmp" and f[1] == "Eq":
+            for a, b in ((f[2], f[3]), (f[3], f[2])):
+                a0 = world.ident(a, expand_ws=False)
+                while a0.op == "call" and a0.info.rsplit("::", 1)[-1] in ("u128", "from", "into") and a0.args:
+                    a0 = world.ident(a0.args[0], expand_ws=False)
+                b0 = world.ident(b, expand_ws=False)
+                if a0.op == "field" and a0.info[0] == "0" and a0.args[0].op == "param" and a0.args[0].info[1] == 4 and \
+                        (b0.op == "const" and b0.info[1] == 0 or (b0.op == "call" and b0.info.endswith("::zero"))):
+                    return True
+        if f[0] == "truth" and f[2] is True and f[1].op == "call" and f[1].info.endswith("::is_zero"):
+            a0 = world.ident(f[1].args[0], expand_ws=False)
+            return a0.op == "field" and a0.info[0] == "0" and a0.args[0].op == "param" and a0.args[0].info[1] == 4
+        return False
+    removed = set()
+    for blk in rb.blocks:
+        if blk.cleanup or blk.term.kind != "switch" or blk.idx not in be.cfg.live:
+            continue
+        for succ, fl in sem.edge_facts(be, blk.idx).items():
+            if any(loss_zero(f) for f in fl):
+                removed.add((blk.idx, succ))
+    bes = world.be_spec(rb, frozenset(removed))
+    subs = []
+    adds = []
+    for blk in rb.calls():
+        if blk.idx not in bes.cfg.live:
+            continue
+        e = bes.ev_call(blk.idx, blk.term)
+        if e.op == "call" and e.info.endswith("from_subtraction") and len(e.args) == 2:
+            subs.append((blk.idx, e))
+    if len(subs) != 1:
+        rep.ob("C01.j", "%s: loss share" % tk, False, "anchor-lost: expected one signed subtraction (batch amount - loss share) in %s, found %d" % (rb.path, len(subs)), where(rb))
+        return
+    bb, e = subs[0]
+    unb = world.ident(e.args[0], expand_ws=False)
+    bad = []
+    for a in alts(e.args[1]):
+        aa = arith_args(a, "Add")
+        if not (aa is not None and (is_one(aa[0]) or is_one(aa[1]))):
+            bad.append(show(a, 3))
+    rep.ob("C01.j", "%s: a loss is rounded up (+1) whenever the group lost coins" % tk, not bad,
+           "with loss != 0 the share subtracted can be %s (no + 1): the batches' losses then add up to less than the group's loss" % sorted(set(bad)) if bad
+           else "loss share = floor(weight x loss) + 1 on every path with loss != 0 (%d edge(s) assumed away)" % len(removed), where(rb, bb), key="C01.j | %s | loss" % tk,
+           fkey="%s loss" % tk)
+    # surplus: the value added to the batch amount on the other branch
+    ret = world.ident(world.ret_expr(rb), expand_ws=False)
+    sur = []
+    for y in find(ret, lambda y: arith_args(y, "Add") is not None and unb in [world.ident(z, expand_ws=False) for z in arith_args(y, "Add")]):
+        other = [z for z in arith_args(y, "Add") if world.ident(z, expand_ws=False) != unb]
+        if other:
+            sur.extend(alts(other[0]))
+    bad2 = []
+    for a in sur:
+        a0 = world.ident(a, expand_ws=False)
+        sa = arith_args(a0, "Sub")
+        def zval(x, d=0):
+            x = world.ident(x, expand_ws=False)
+            if (x.op == "call" and x.info.endswith("::zero")) or (x.op == "const" and x.info[0] == "scalar" and x.info[1] == 0):
+                return True
+            return d < 4 and x.op in ("adt", "array", "tuple") and bool(x.args) and all(zval(y, d + 1) for y in x.args)
+        zero = zval(a0)
+        if not (zero or (sa is not None and is_one(sa[1]))):
+            bad2.append(show(a0, 3))
+    if sur:
+        rep.ob("C01.j", "%s: a surplus is rounded down (-1 or nothing)" % tk, not bad2,
+               "the surplus credited to a batch can be %s" % sorted(set(bad2)) if bad2 else "surplus share = floor(weight x surplus) - 1, or 0", where(rb, bb),
+               key="C01.j | %s | surplus" % tk, fkey="%s surplus" % tk)
 
 
 def E_field(call, name):
